@@ -758,6 +758,9 @@ class FuncAnalysis:
         elif name in self._nonlocal_decl:
             self._emit('store_nonlocal', node, name=name, value=v)
         self.env[name] = v
+        if not getattr(self, '_inline_stack', None):
+            self.all_bindings = getattr(self, 'all_bindings', {})
+            self.all_bindings[name] = v
 
     def _assign(self, tgt, v, node):
         if isinstance(tgt, ast.Name):
@@ -1744,7 +1747,7 @@ class FuncAnalysis:
     def _canon_args(self, f, args, kws):
         """One spelling per call of a package-local function: keyword arguments that name the next
         positional parameters are passed positionally (f(a, y=b) == f(a, b))."""
-        if f[0] != 'g' or any(a[0] == 'star' for a in args) or any(k[0] != 'kw' for k in kws):
+        if f[0] != 'g' or any(a[0] == 'star' for a in args):
             return args, kws
         q = f[1]
         fi = self.repo.funcs.get(q)
@@ -1775,7 +1778,7 @@ class FuncAnalysis:
                 dflt[arg.arg] = T.C(ast.literal_eval(d))
             except (ValueError, SyntaxError, TypeError):
                 pass
-        kws = [k for k in kws if not (k[1] in dflt and k[2] == dflt[k[1]])]
+        kws = [k for k in kws if not (k[0] == 'kw' and k[1] in dflt and k[2] == dflt[k[1]])]
         while args and len(args) <= len(params) and params[len(args) - 1] in dflt and args[-1] == dflt[params[len(args) - 1]]:
             args.pop()
         return args, kws
